@@ -241,6 +241,24 @@ def judge(seed, z_force=None):
             return "rho(points) on a buffer that was moved in place since the previous call is not the density at the buffer's current coordinates"
         if not np.array_equal(w_again, w_fresh):
             return "weights(points) on a buffer that was moved in place since the previous call are not the weights at the buffer's current coordinates"
+        # the same coordinates held in other array layouts (a float32 (N,4) buffer's xyz columns, every second row of a longer array,
+        # a Fortran-ordered array, a plain list of lists) are the same points
+        buf4 = np.zeros((len(pts), 4), dtype=np.float32)
+        buf4[:, :3] = pts
+        long_ = np.repeat(pts.astype(np.float32), 2, axis=0)
+        for name, view in (("xyz columns of a float32 (N,4) buffer", buf4[:, :3]), ("every second row of a float32 array", long_[::2]),
+                           ("Fortran-ordered float64 array", np.asfortranarray(pts.astype(np.float64))), ("list of lists", pts.astype(np.float64).tolist())):
+            try:
+                r_v = PromoleculeDensity((els, pos)).rho(view)
+                w_v = StockholderWeight(PromoleculeDensity((els[:k], pos[:k])), PromoleculeDensity((els[k:], pos[k:]))).weights(view)
+            except Exception as ex:  # noqa
+                return f"rho / weights on {name} raised {type(ex).__name__}: {ex}"
+            if not np.allclose(r_v, full, rtol=1e-6, atol=0) or not np.allclose(w_v, ra / (ra + rb), rtol=rt, atol=1e-7):
+                return f"rho / weights on {name} differ from the values for the same points as a contiguous array"
+        # the background given as the third POSITIONAL argument of StockholderWeight
+        wpos = StockholderWeight(PromoleculeDensity((els[:k], pos[:k])), PromoleculeDensity((els[k:], pos[k:])), 1e-2).weights(pts)
+        if not np.allclose(wpos, ra / (ra + rb + np.float32(1e-2)), rtol=rt, atol=0):
+            return "StockholderWeight(a, b, 0.01) (background given positionally) is not interior/(interior+exterior+background)"
         # the value at a point does not depend on how many other points are evaluated in the same call
         if seed % 4 == 0:
             big = np.tile(pts, (70001 // len(pts) + 1, 1))[:70001]
